@@ -10,6 +10,12 @@ use super::*;
 const W: usize = 16;
 static SEQ: [u8; W] = [0, 1, 2, 3, 4, 5, 6, 7, 8, 9, 10, 11, 12, 13, 14, 15];
 
+/// core's slice-index panic path builds `fmt::Arguments` at run time; the stub keeps the panic
+/// (still reported as a failed check) and drops the message.
+fn stub_slice_index_fail(_start: usize, _end: usize, _len: usize) -> ! {
+    panic!("slice index out of range")
+}
+
 fn content(base: u64, from: u64, to: u64) -> Bytes {
     Bytes::from_static(&SEQ).slice((from - base) as usize..(to - base) as usize)
 }
@@ -105,7 +111,9 @@ fn recv_step<const N: usize>(base: u64) {
     assert!(buf.largest_offset == expect_largest, "largest_offset == max(previous, end of fragment)");
     assert!(newly == buf.largest_offset - largest_before, "newly covered amount == growth of largest offset");
     assert!(buf.available() >= avail_before, "contiguous readable prefix never shrinks on recv");
-    kani::cover!(newly > 0 && cov_before, "recv extended past existing data");
+    if N > 0 {
+        kani::cover!(newly > 0 && cov_before, "recv extended past existing data");
+    }
     kani::cover!(in_new && !cov_before, "probe byte newly stored");
     kani::cover!(len > 0 && newly == 0, "fully duplicate / old fragment");
     core::mem::forget(buf); // drop glue of 8 Option<Segment> cells is irrelevant to the property
@@ -113,24 +121,28 @@ fn recv_step<const N: usize>(base: u64) {
 
 #[kani::proof]
 #[kani::unwind(8)]
+#[kani::stub(core::slice::index::slice_index_fail, stub_slice_index_fail)]
 fn c08_recv_step_n0() {
     recv_step::<0>(any_base()); // symbolic 62-bit base offset
 }
 
 #[kani::proof]
 #[kani::unwind(8)]
+#[kani::stub(core::slice::index::slice_index_fail, stub_slice_index_fail)]
 fn c08_recv_step_n1() {
     recv_step::<1>(0);
 }
 
 #[kani::proof]
 #[kani::unwind(8)]
+#[kani::stub(core::slice::index::slice_index_fail, stub_slice_index_fail)]
 fn c08_recv_step_n2() {
     recv_step::<2>(0);
 }
 
 #[kani::proof]
 #[kani::unwind(8)]
+#[kani::stub(core::slice::index::slice_index_fail, stub_slice_index_fail)]
 fn c08_recv_step_n3() {
     recv_step::<3>(0);
 }
@@ -203,18 +215,21 @@ fn read_step<const N: usize>(base: u64) {
 
 #[kani::proof]
 #[kani::unwind(8)]
+#[kani::stub(core::slice::index::slice_index_fail, stub_slice_index_fail)]
 fn c08_read_step_n1() {
     read_step::<1>(0);
 }
 
 #[kani::proof]
 #[kani::unwind(8)]
+#[kani::stub(core::slice::index::slice_index_fail, stub_slice_index_fail)]
 fn c08_read_step_n2() {
     read_step::<2>(0);
 }
 
 #[kani::proof]
 #[kani::unwind(8)]
+#[kani::stub(core::slice::index::slice_index_fail, stub_slice_index_fail)]
 fn c08_read_step_n3() {
     read_step::<3>(0);
 }
@@ -245,6 +260,7 @@ fn next_step<const N: usize>(base: u64) {
 
 #[kani::proof]
 #[kani::unwind(8)]
+#[kani::stub(core::slice::index::slice_index_fail, stub_slice_index_fail)]
 fn c08_next_step_n2() {
     next_step::<2>(any_base());
 }
